@@ -171,15 +171,16 @@ const (
 var modeNames = []string{"shadow-first", "regular-first", "client-cancelled-first"}
 
 type caseSpec struct {
-	bes      []beSpec
-	ep       time.Duration
-	req      reqSpec
-	mode     int
-	fullcopy bool
-	newOnly  bool
-	label    string
-	seq      string // instance-reuse streams: which reused instance, and the position in its sequence
-	step     int
+	bes        []beSpec
+	ep         time.Duration
+	req        reqSpec
+	mode       int
+	fullcopy   bool
+	newOnly    bool
+	label      string
+	sequential bool   // the endpoint's pipelines are sequential merges with propagated values
+	seq        string // instance-reuse streams: which reused instance, and the position in its sequence
+	step       int
 }
 
 // ---- observations --------------------------------------------------------------------
@@ -235,7 +236,7 @@ type runState struct {
 	scribble        bool
 	orderNotImposed bool
 	cfgModified     bool
-	hold            *histHold // long-history stream: shadow stubs hang until released
+	hold            *histHold // sequential-merge stream: 12 shapes of 3..4 backends whose regular and shadow pipelines are sequential merges with propagated values x 3 timings; long-history stream: shadow stubs hang until released
 }
 
 // the shadow calls of a long history on one proxy: every stub announces itself and then hangs
@@ -541,8 +542,30 @@ func backendIndex(be *config.Backend) int {
 // endpoint configuration for the backends sel (indices into spec.bes)
 func buildCfg(spec *caseSpec, sel []int) *config.EndpointConfig {
 	ep := &config.EndpointConfig{Endpoint: "/e/{p1}", Method: "POST", Timeout: spec.ep}
+	if spec.sequential {
+		ep.ExtraConfig = config.ExtraConfig{proxy.Namespace: map[string]interface{}{"sequential": true}}
+	}
+	firstReg, firstSh := -1, -1
 	for _, i := range sel {
-		ep.Backend = append(ep.Backend, &config.Backend{URLPattern: fmt.Sprintf("/b%d/{p1}", i), Method: spec.bes[i].method, Host: []string{"http://h" + out.Itoa(i)}})
+		pat := fmt.Sprintf("/b%d/{p1}", i)
+		if spec.sequential {
+			// within its pipeline (regular / shadow list, in configuration order) every backend
+			// but the first is called with a value of the first one's answer
+			if spec.bes[i].ns.shadow() {
+				if firstSh < 0 {
+					firstSh = i
+				} else {
+					pat += fmt.Sprintf("/{resp0_shadow%d}", firstSh)
+				}
+			} else {
+				if firstReg < 0 {
+					firstReg = i
+				} else {
+					pat += fmt.Sprintf("/{resp0_k%d}", firstReg)
+				}
+			}
+		}
+		ep.Backend = append(ep.Backend, &config.Backend{URLPattern: pat, Method: spec.bes[i].method, Host: []string{"http://h" + out.Itoa(i)}})
 	}
 	if len(sel) > 0 {
 		sc := config.ServiceConfig{Version: config.ConfigVersion, Timeout: spec.ep, Host: []string{"http://h"}, Endpoints: []*config.EndpointConfig{ep}}
@@ -1119,7 +1142,7 @@ func emitCase(spec *caseSpec, plain, shadowed runResult) emitted {
 		}
 	}
 	keys := []string{fmt.Sprintf("backends:%d", len(spec.bes)), fmt.Sprintf("shadows:%d", nsh)}
-	canon := fmt.Sprintf("%s|%s|%d|%v|%v|%d|%v", spec.label, spec.seq, spec.step, besJS, spec.ep, spec.mode, spec.req)
+	canon := fmt.Sprintf("%v|%s|%s|%d|%v|%v|%d|%v", spec.sequential, spec.label, spec.seq, spec.step, besJS, spec.ep, spec.mode, spec.req)
 	if spec.req.body != nil {
 		canon += "|" + *spec.req.body
 	}
@@ -1159,7 +1182,7 @@ func emitCase(spec *caseSpec, plain, shadowed runResult) emitted {
 		srT = "pr"
 	}
 	term := "(let q := " + reqCoq(q.method, "/e/v1", q.hdr, q.qry, q.par, q.body) + " in let pc := " + pc + " in let pr := " + pr + " in " +
-		emit.App("CRun", bes, emit.Z(int64(spec.ep)), "q", emit.Bool(spec.fullcopy),
+		emit.App(map[bool]string{false: "CRun", true: "CSeqRun"}[spec.sequential], bes, emit.Z(int64(spec.ep)), "q", emit.Bool(spec.fullcopy),
 			emit.List(outs), callsCoq(shadowed.st.calls), emit.NatList(plainIDs), emit.Bool(wd), "pc", scT, "pr", srT, ss) + ")"
 	reqJ := map[string]interface{}{"method": q.method, "headers": q.hdr, "query": q.qry, "params": q.par}
 	if q.body != nil {
@@ -1171,6 +1194,10 @@ func emitCase(spec *caseSpec, plain, shadowed runResult) emitted {
 		"observed": map[string]interface{}{"factory_calls": shadowed.st.calls, "watchdog_fired": plain.st.watchdog || shadowed.st.watchdog, "caller_config_modified_by_New": plain.st.cfgModified || shadowed.st.cfgModified, "order_not_imposed": shadowed.st.orderNotImposed,
 			"plain_result": pj, "with_shadows_result": sj, "regular_backends_plain_run": prj, "regular_backends_with_shadows": srj, "shadow_backends": ssj}}
 	keys = append(keys, "level:call", "timing:"+modeNames[spec.mode])
+	if spec.sequential {
+		js["sequential_merge"] = true
+		keys = append(keys, "stream:sequential-merge")
+	}
 	if spec.seq != "" {
 		js["reused_instance"] = spec.seq
 		js["step"] = spec.step
@@ -1938,6 +1965,36 @@ func main() {
 		}
 	}
 
+	// ---- 5d. sequential merges on both sides: the regular and the shadow pipeline each call
+	// their backends one after the other and write propagated values (Resp0_...) into the
+	// Params map of the request they were handed - the client's for the regular pipeline, the
+	// clone's for the shadow pipeline ----
+	for _, shape := range []string{"RRS", "SRR", "RSR", "RSS", "SSR", "SRS", "RRSS", "SRSR", "RSSR", "SSRR", "RRRS", "SRRR"} {
+		reps := 2
+		if cfg.Thorough() {
+			reps = 8
+		}
+		for rep := 0; rep < reps; rep++ {
+			for mode := 0; mode < 3; mode++ {
+				bes := make([]beSpec, len(shape))
+				lastSh := strings.LastIndex(shape, "S")
+				for i, c := range shape {
+					m := []string{"POST", "GET", "PUT"}[r.Intn(3)]
+					if c == 'S' {
+						so := sOk // every shadow but the last answers completely, so that the next is called
+						if i == lastSh {
+							so = r.Intn(3)
+						}
+						bes[i] = shd(m, []string{"1h", "2h"}[r.Intn(2)], so)
+					} else {
+						bes[i] = reg(m, []int{rPayload, rPayload, rIncomplete, rErr, rEmpty, rNilData}[r.Intn(6)])
+					}
+				}
+				add(&caseSpec{bes: bes, ep: time.Hour, req: stepReq(rep, bodies[r.Intn(len(bodies))]), mode: mode, sequential: true, label: "sequential-merge"})
+			}
+		}
+	}
+
 	// ---- 5c. long history: one proxy, many client calls, every shadow call hung ----
 	{
 		n := 300
@@ -2057,5 +2114,5 @@ func main() {
 			w.Add(e.term, e.js, "", e.canon, e.nontr)
 		}
 	}
-	w.Close("corpus (GraphQL GET/POST shadow or regular next to plain backends, the shapes of shadow_test.go, empty request, degenerate configurations); every shape of the proxy extra_config entry (namespace absent / not a map / shadow flag absent, not a bool, true, false x shadow_timeout absent, not a string, 10 strings) next to regular backends; every split of 2..4 backends into >=1 regular and >=1 shadow x every shadow outcome vector {ok,error,garbage,hang}^s x 3 imposed timings (quick: 4 backends sampled 1/3), regular outcomes as in C01 and bodies drawn per case; random stream (random requests, methods, timeouts, GraphQL stages, 85% merge bound below the shadow timeout); instance reuse: ONE plain and ONE NewShadowFactory-built proxy per configuration serving a sequence of 4-6 requests that differ in body, headers, params, regular and shadow outcomes and timing (3 corpus sequences, every split of 2..3 backends x 2 random sequences, with and without hanging shadows), and 3 configurations hit by 12 goroutines x 40 iterations over 10 distinct inputs (each distinct observation emitted once). rebuild stream: every split of 2..4 backends, NewShadowFactory(f).New called 3 times on the SAME configuration value, each resulting proxy driven, deep snapshot of the caller's configuration compared after every New. long-history stream: 2 configurations, one NewShadowFactory-built proxy serving 300 (thorough 1600) client calls while every shadow call so far is still hung, each client call must return without the hung shadow calls being released. Each case = one call of the plain factory's endpoint on the regular backends + one call of NewShadowFactory's endpoint. nontrivial = at least one shadow backend", true)
+	w.Close("corpus (GraphQL GET/POST shadow or regular next to plain backends, the shapes of shadow_test.go, empty request, degenerate configurations); every shape of the proxy extra_config entry (namespace absent / not a map / shadow flag absent, not a bool, true, false x shadow_timeout absent, not a string, 10 strings) next to regular backends; every split of 2..4 backends into >=1 regular and >=1 shadow x every shadow outcome vector {ok,error,garbage,hang}^s x 3 imposed timings (quick: 4 backends sampled 1/3), regular outcomes as in C01 and bodies drawn per case; random stream (random requests, methods, timeouts, GraphQL stages, 85% merge bound below the shadow timeout); instance reuse: ONE plain and ONE NewShadowFactory-built proxy per configuration serving a sequence of 4-6 requests that differ in body, headers, params, regular and shadow outcomes and timing (3 corpus sequences, every split of 2..3 backends x 2 random sequences, with and without hanging shadows), and 3 configurations hit by 12 goroutines x 40 iterations over 10 distinct inputs (each distinct observation emitted once). rebuild stream: every split of 2..4 backends, NewShadowFactory(f).New called 3 times on the SAME configuration value, each resulting proxy driven, deep snapshot of the caller's configuration compared after every New. sequential-merge stream: 12 shapes of 3..4 backends whose regular and shadow pipelines are sequential merges with propagated values x 3 timings; long-history stream: 2 configurations, one NewShadowFactory-built proxy serving 300 (thorough 1600) client calls while every shadow call so far is still hung, each client call must return without the hung shadow calls being released. Each case = one call of the plain factory's endpoint on the regular backends + one call of NewShadowFactory's endpoint. nontrivial = at least one shadow backend", true)
 }
